@@ -110,6 +110,28 @@ Theorem c04_reject_unverified : forall B D raw hash verify parse_text keys m1 re
 Proof. exact reject_unverified. Qed.
 Print Assumptions c04_reject_unverified.
 
+(* one whose entries for configured keys all have a type that is not verified
+   (RSA512, DSA — or anything the switch read from the source does not map to a
+   digest): such an entry never counts as "a signature with a known key"
+   (seeded change C04-5 made it count), *)
+Theorem c04_reject_only_unverifiable_types : forall B D raw hash verify parse_text keys m1 rest,
+  (forall e t key, In e (m_entries m1) -> e_name e = sig_entry_name t key -> In key keys -> supported t = None) ->
+  parse_repository_index B D raw hash verify parse_text true keys (m1 :: rest) = PErr.
+Proof.
+  intros B D raw hash verify pt keys m1 rest H. apply reject_not_authentic.
+  intros (e & t & a & key & He & Hn & S & Hk & _). rewrite (H e t key He Hn Hk) in S. discriminate.
+Qed.
+Print Assumptions c04_reject_only_unverifiable_types.
+
+(* what the `switch signatureType` read from the source does with the four types the
+   name pattern admits *)
+Theorem c04_signature_types_pinned :
+  sig_kind_of "RSA" = KAlg SHA1 /\ sig_kind_of "RSA256" = KAlg SHA256 /\
+  sig_kind_of "RSA512" = KSkip /\ sig_kind_of "DSA" = KSkip /\
+  forall t a, sig_kind_of t = KAlg a -> supported t = Some a.
+Proof. repeat split; try reflexivity. exact sig_kind_supported'. Qed.
+Print Assumptions c04_signature_types_pinned.
+
 (* and everything when no key is configured or there is no gzip member *)
 Theorem c04_reject_no_keys : forall B D raw hash verify parse_text a,
   parse_repository_index B D raw hash verify parse_text true [] a = PErr.
@@ -460,3 +482,17 @@ Example c04_vctx_example :
   verification_context (fun x => x) true [("b", "y"); ("a", "x")] = verification_context (fun x => x) true [("a", "x"); ("b", "y")] /\
   verification_context (fun x => x) false [("a", "x")] = "unverified".
 Proof. split; [vm_compute; discriminate | split; vm_compute; reflexivity]. Qed.
+
+(* the hypothesis of c04_reject_only_unverifiable_types is satisfiable: a first member
+   whose only entry is of type RSA512 for the configured key *)
+Example c04_only_unverifiable_types_example :
+  let m1 := {| m_entries := [ {| e_name := ".SIGN.RSA512.k.rsa.pub"; e_body := ex_sig |} ]; m_pending := None; m_tail := TClean |} in
+  (forall e t key, In e (m_entries m1) -> e_name e = sig_entry_name t key -> In key [ex_key] -> supported t = None) /\
+  parse_repository_index (list member) (list member) (fun r => r) (fun _ r => r) (fun _ _ _ _ => true) ex_parse true [ex_key] (m1 :: ex_rest) = PErr.
+Proof.
+  split; [|vm_compute; reflexivity].
+  intros e t key [<-|[]] Hn [<-|[]]. unfold sig_entry_name, ex_key in Hn. simpl in Hn.
+  inversion Hn as [E]. change "RSA512.k.rsa.pub" with ("RSA512" ++ ".k.rsa.pub")%string in E.
+  change (t ++ String "." "k.rsa.pub")%string with (t ++ ".k.rsa.pub")%string in E.
+  apply sapp_inj_r in E. subst t. reflexivity.
+Qed.
